@@ -9,6 +9,39 @@ REL_PY = {"gt": ">", "ge": ">=", "lt": "<", "le": "<=", "eq": "="}
 NT = 4  # number of controllable pipes (parallel duplicates: closing them never isolates a node)
 
 
+NUM_KINDS = ["int", "float", "np_int", "np_float"]
+
+
+def typed_num(v, kind):
+    """the same number of seconds in another Python type (the constructors document int/float and accept numpy scalars)"""
+    import numpy as np
+
+    return {"int": int, "float": float, "np_int": np.int64, "np_float": np.float64}[kind](v)
+
+
+def typed_threshold(v, kind):
+    """… or as a string: 'H:MM:SS' (seconds since start / since midnight) or decimal hours (exact for quarter hours)"""
+    if kind == "hms":
+        return "%d:%02d:%02d" % (v // 3600, (v % 3600) // 60, v % 60)
+    if kind == "hours" and v % 900 == 0:
+        return repr(v / 3600.0)
+    if kind in NUM_KINDS:
+        return typed_num(v, kind)
+    return int(v)
+
+
+def typed_repeat(rep, kind):
+    if not rep:
+        return False
+    if kind == "true" and rep == 86400:
+        return True
+    return typed_num(rep, kind if kind in NUM_KINDS else "int")
+
+
+THR_KINDS = NUM_KINDS + ["hms", "hours"]
+REP_KINDS = NUM_KINDS + ["true"]
+
+
 def build_wn(wntr, sched):
     wn = wntr.network.WaterNetworkModel()
     wn.add_reservoir("R", base_head=60.0)
@@ -37,10 +70,12 @@ def build_wn(wntr, sched):
     def mkcond(c):
         if c[0] == "sim":
             _, rel, thr, rep = c
-            return SimTimeCondition(wn, REL_PY[rel], thr, repeat=(rep if rep else False))
+            # the argument TYPES vary deterministically with the values (int / float / numpy scalars / strings / True)
+            return SimTimeCondition(wn, REL_PY[rel], typed_threshold(thr, THR_KINDS[(thr + rep) % len(THR_KINDS)]),
+                                    repeat=typed_repeat(rep, REP_KINDS[(thr // 7 + rep) % len(REP_KINDS)]))
         if c[0] == "tod":
             _, rel, thr, rep, fd = c
-            return TimeOfDayCondition(wn, REL_PY[rel], thr, repeat=bool(rep), first_day=fd)
+            return TimeOfDayCondition(wn, REL_PY[rel], typed_threshold(thr, THR_KINDS[(thr + fd) % len(THR_KINDS)]), repeat=bool(rep), first_day=fd)
         if c[0] == "and":
             return AndCondition(mkcond(c[1]), mkcond(c[2]))
         if c[0] == "or":
